@@ -250,7 +250,7 @@ func buildServers() (map[string]*grpSpec, []*srvSpec, []*agd.ServerGroup) {
 // buildWorld constructs devices, profiles, the profile database of the given
 // kind ("mapdb" or "real") and the full stack.  round selects another set of
 // seed-derived device identifiers and passwords.
-func buildWorld(r *vkit.Run, dbKind string, round int) (*world, error) {
+func buildWorld(r *vkit.Run, dbKind string, round int, tweak ...func(*stack.Options)) (*world, error) {
 	rnd := r.Rand("world-"+dbKind, round)
 	w := &world{DBKind: dbKind, byName: map[string]*srvSpec{}, Profs: map[agd.ProfileID]*profSpec{},
 		byID: map[agd.DeviceID]*devSpec{}, byLinked: map[netip.Addr]*devSpec{}, byDed: map[netip.Addr]*devSpec{},
@@ -409,8 +409,12 @@ func buildWorld(r *vkit.Run, dbKind string, round int) (*world, error) {
 
 	fg := &agd.FilteringGroup{ID: "fg", FilterConfig: &filter.ConfigGroup{Parental: &filter.ConfigParental{},
 		RuleList: &filter.ConfigRuleList{}, SafeBrowsing: &filter.ConfigSafeBrowsing{}}}
-	st, err := stack.New(&stack.Options{ProfileDB: w.db, ServerGroups: agdGroups,
-		FilteringGroups: map[agd.FilteringGroupID]*agd.FilteringGroup{"fg": fg}})
+	so := &stack.Options{ProfileDB: w.db, ServerGroups: agdGroups,
+		FilteringGroups: map[agd.FilteringGroupID]*agd.FilteringGroup{"fg": fg}}
+	for _, f := range tweak {
+		f(so)
+	}
+	st, err := stack.New(so)
 	if err != nil {
 		return nil, err
 	}
